@@ -9,6 +9,7 @@ package main
 
 import (
 	"bytes"
+	"strings"
 	"encoding/hex"
 	"fmt"
 	"math/big"
@@ -320,6 +321,21 @@ func derivedCases(r *vc.Rng, id func() string) []Case {
 			setPQ(c, pr[0], pr[1])
 		})
 	}
+	// pq sent left-padded with 1..4 zero bytes (a TL string, servers may pad; the client has to echo the same bytes)
+	for k := 1; k <= 4; k++ {
+		k := k
+		mk(fmt.Sprintf("pq_leading_zeros:%d", k), fmt.Sprintf("pq sent with %d leading zero byte(s)", k), func(c *Case) {
+			c.PQ = hx(append(make([]byte, k), unhex(c.PQ)...))
+		})
+	}
+	// every padding length that can align answer_with_hash: the TL layout makes it 0, 4, 8 or 12 depending on the
+	// widths in which dh_prime and g_a are sent
+	for _, w := range [][3]int{{256, 256, 8}, {257, 256, 4}, {257, 257, 0}, {261, 257, 12}, {261, 261, 8}, {256, 261, 0}} {
+		w := w
+		mk(fmt.Sprintf("answer_pad:%d:%dx%d", w[2], w[0], w[1]), fmt.Sprintf("dh_prime sent in %d bytes, g_a in %d bytes: %d padding bytes", w[0], w[1], w[2]), func(c *Case) {
+			c.DHPrimeWidth, c.GAWidth = w[0], w[1]
+		})
+	}
 	// extremes of the drawn and chosen values
 	zero := func(n int) string { return hx(make([]byte, n)) }
 	ff := func(n int) string { return hx(bytes.Repeat([]byte{0xff}, n)) }
@@ -510,6 +526,47 @@ func genC07(tier string) []Case {
 	field("genok.server_nonce", 128, 5, 128, "abort", false, true, "dh_gen_ok.server_nonce")
 	field("genok.hash", 128, 10, 128, "abort", false, false, "dh_gen_ok.new_nonce_hash1")
 	ctor("genok.ctor", []string{"dh_gen_retry", "dh_gen_fail", "server_DH_params_fail", "resPQ", "pong"}, "answer to set_client_DH_params")
+
+	// replies that cannot be read at all, at each of the three steps: an unregistered constructor id, a truncated body,
+	// an empty body, the 4-byte transport error frame -404 (what real servers send), the connection closed
+	for step := 1; step <= 3; step++ {
+		for _, k := range []string{"unknown_ctor", "truncated", "empty", "err404", "close"} {
+			add(fmt.Sprintf("raw%d", step), k, 0, "abort", false,
+				fmt.Sprintf("answer to request %d: %s", step, map[string]string{"unknown_ctor": "a body with an unregistered constructor id",
+					"truncated": "a body cut short by 8 bytes", "empty": "an empty body", "err404": "the transport error frame -404",
+					"close": "the connection is closed instead"}[k]))
+		}
+	}
+	// the right hash under the wrong constructor and the wrong hash under the right one
+	for _, nm := range []string{"dh_gen_retry+hash1", "dh_gen_fail+hash1", "dh_gen_ok+hash2", "dh_gen_ok+hash3", "dh_gen_retry+hash2", "dh_gen_fail+hash3"} {
+		add("genok.ctor", "ctor:"+nm, 0, "abort", false, "answer to set_client_DH_params: "+strings.Replace(nm, "+", " carrying new_nonce_", 1))
+	}
+	// pq that is not a product of two primes: a prime (SplitPQ would never return), p^2, 1, 0, more than 64 bits
+	setPQFault := func(v *big.Int, width int, expect, what string) {
+		c := base()
+		c.ID = id()
+		c.Expect = expect
+		b := v.Bytes()
+		if len(b) < width {
+			b = hsserver.Fixed(v, width)
+		}
+		c.Fault = &FaultJ{Target: "respq.pq", Kind: "set", Rand: hx(b), Adopt: true}
+		c.Desc = "resPQ.pq = " + what + " (the server continues with it)"
+		cs = append(cs, c)
+	}
+	setPQFault(big.NewInt(2147483647), 0, "abort", "the prime 2^31-1")
+	setPQFault(new(big.Int).SetUint64(18446744073709551557), 0, "abort", "the prime 2^64-59")
+	setPQFault(randPrime(r, 40), 0, "abort", "a random 40-bit prime")
+	setPQFault(big.NewInt(2), 0, "abort", "the prime 2")
+	setPQFault(big.NewInt(3), 8, "abort", "the prime 3 in 8 bytes")
+	setPQFault(big.NewInt(1), 0, "abort", "1")
+	setPQFault(big.NewInt(0), 1, "abort", "0 (one zero byte)")
+	setPQFault(big.NewInt(0), 0, "abort", "the empty string")
+	setPQFault(new(big.Int).Lsh(big.NewInt(15), 64), 0, "abort", "15 * 2^64 (68 bits)")
+	sq := randPrime(r, 20)
+	setPQFault(new(big.Int).Mul(sq, sq), 0, "any", "the square of a 20-bit prime")
+	setPQFault(big.NewInt(4), 0, "any", "4")
+	setPQFault(big.NewInt(3*5*7), 0, "any", "3*5*7")
 
 	// a few conformant exchanges with the same generator, so that "success" is exercised by this check too
 	for i := 0; i < 4; i++ {
